@@ -1511,3 +1511,80 @@ def aux_reads_after_close(scratch, rng):
     rd = None
     gc.collect()
     return fails, n, [nm for nm, _ in usable]
+
+
+# ------------------------------------------------------------------------------------------------ a fault of the caller's file object, then a retry
+
+class _FaultyBytesIO(io.BytesIO):
+    """caller's in-memory file object whose k-th write() raises OSError once (a full pipe, a quota): nothing is written by the failing call"""
+
+    def __init__(self, fail_at):
+        super().__init__()
+        self.fail_at, self.calls, self.failed = fail_at, 0, False
+
+    def write(self, b):
+        self.calls += 1
+        if self.calls == self.fail_at and not self.failed:
+            self.failed = True
+            raise OSError('injected: no space left on device')
+        return super().write(b)
+
+
+def fault_then_retry(scratch, rng):
+    """'a file object supplied by the caller is left open and holds the complete output after the writer closes': when one write() of that
+    file object fails (OSError), close() reports it; once the caller's object works again, a repeated close() either completes the output or
+    raises again - it never returns silently with writer.closed true over an incomplete file.  SICD writer, several image segments, every
+    write position of the close sequence.
+    -> (failures, number of fault positions)"""
+    import sargen
+    from sarpy.io.complex.sicd import SICDWriter, SICDWritingDetails
+    fails, n = [], 0
+    rows, cols = 14, 5
+    meta = sargen.small_sicd(rows, cols)
+    data = (numpy.arange(rows * cols, dtype='float32').reshape((rows, cols)) + 1 + 2j).astype('complex64')
+
+    def run(fo, flush_mid):
+        w = SICDWriter(fo, sicd_writing_details=SICDWritingDetails(meta.copy(), row_limit=5), check_existence=False)
+        w.write(data[:7], start_indices=(0, 0))
+        errs = []
+        if flush_mid:
+            try:
+                w.flush()
+            except OSError as e:
+                errs.append('flush')
+        w.write(data[7:], start_indices=(7, 0))
+        for attempt in range(3):
+            try:
+                w.close()
+                break
+            except OSError:
+                errs.append('close')
+        return w, errs
+    for flush_mid in (False, True):
+        ref = io.BytesIO()
+        run(ref, flush_mid)
+        good = ref.getvalue()
+        ref_calls = _FaultyBytesIO(10 ** 9)
+        run(ref_calls, flush_mid)
+        total = ref_calls.calls
+        for k in range(1, total + 1):
+            n += 1
+            fo = _FaultyBytesIO(k)
+            case = {'machine': 'W', 'kind': 'SICD', 'ops': ['write', 'flush' if flush_mid else '-', 'write', 'close', 'close'], 'fault_at_write_call': k,
+                    'write_calls_without_fault': total}
+            try:
+                w, errs = run(fo, flush_mid)
+            except Exception as e:
+                fails.append({'key': '', 'step': k, 'case': case, 'msg': f'SICD writer on a file object whose write call {k} of {total} raises OSError once: '
+                                                                         f'the write / close sequence raised {type(e).__name__}: {e}'})
+                continue
+            if not fo.failed:
+                continue
+            out = fo.getvalue()
+            if getattr(w, 'closed', False) and out != good:
+                at = next((i for i, (a_, b_) in enumerate(zip(out, good)) if a_ != b_), min(len(out), len(good)))
+                fails.append({'key': '', 'step': k, 'case': case,
+                              'msg': f'SICD writer on a caller-supplied file object whose write call {k} of {total} raised OSError once ({", ".join(errs) or "no call"} reported it): '
+                                     f'after the repeated close() the writer is closed, but the file object does not hold the complete output '
+                                     f'({len(out)} bytes, fault-free {len(good)}; first difference at byte {at})'})
+    return fails, n
